@@ -46,6 +46,7 @@ type stmt struct {
 	hasFin  bool
 	hasElse bool
 	mode    string // sWith: "false" "true" "raise"
+	iter    string // sFor: "" = range(2); else what is iterated (c02IterModes)
 	line    int    // line of the statement (header for compounds)
 	callLn  int    // sCall: line of the call g()
 }
@@ -53,7 +54,23 @@ type stmt struct {
 var excParents = map[string]string{
 	"KeyError": "LookupError", "IndexError": "LookupError", "LookupError": "Exception",
 	"ZeroDivisionError": "ArithmeticError", "ArithmeticError": "Exception", "ValueError": "Exception",
-	"RuntimeError": "Exception", "Exception": "BaseException", "BaseException": "",
+	"RuntimeError": "Exception", "Exception": "BaseException", "BaseException": "", "StopIteration": "Exception",
+}
+
+// c02IterModes: iterables that give one item and then end or fail. kind-What: kind is the
+// protocol (cls: __iter__/__next__ class, gen: generator, seq: __getitem__ only), What is
+// raised on the second step. Only StopIteration (and IndexError from __getitem__) end the
+// loop; everything else - in particular Exception, the base class of StopIteration, and
+// LookupError, the base class of IndexError - propagates from the for statement.
+var c02IterModes = []string{"cls-StopIteration", "cls-Exception", "cls-KeyError", "gen-Exception", "gen-return", "seq-IndexError", "seq-LookupError"}
+
+// c02IterRaises: the exception that escapes the loop header ("" = the loop just ends)
+func c02IterRaises(mode string) string {
+	w := mode[4:]
+	if w == "StopIteration" || w == "return" || mode == "seq-IndexError" {
+		return ""
+	}
+	return w
 }
 
 func isSub(t, of string) bool {
@@ -136,7 +153,11 @@ func (r *c02r) stmt(ind int, s *stmt) {
 		}
 	case sFor:
 		r.nw++
-		s.line = r.emit(ind, fmt.Sprintf("for i%d in range(2):", r.nw))
+		if s.iter != "" {
+			s.line = r.emit(ind, fmt.Sprintf("for i%d in mkiter(%q):", r.nw, s.iter))
+		} else {
+			s.line = r.emit(ind, fmt.Sprintf("for i%d in range(2):", r.nw))
+		}
 		r.block(ind+1, s.body)
 		if s.hasElse {
 			r.emit(ind, "else:")
@@ -295,7 +316,11 @@ func (m *c02m) exec(s *stmt, fn string) compl {
 		}
 		return m.block(s.orelse, fn)
 	case sWhile, sFor:
-		for it := 0; it < 2; it++ {
+		n := 2
+		if s.iter != "" {
+			n = 1
+		}
+		for it := 0; it < n; it++ {
 			c := m.block(s.body, fn)
 			switch c.kind {
 			case "break":
@@ -304,6 +329,12 @@ func (m *c02m) exec(s *stmt, fn string) compl {
 				continue
 			default:
 				return c
+			}
+		}
+		if s.iter != "" {
+			if e := c02IterRaises(s.iter); e != "" {
+				// raised inside the iterator while the for statement asks for the next item
+				return compl{kind: "raise", exc: &excObj{typ: e, tb: []tbEntry{{fn, s.line}}, reraiseLines: map[tbEntry]bool{}}}
 			}
 		}
 		return m.block(s.orelse, fn)
@@ -386,12 +417,13 @@ func (m *c02m) exec(s *stmt, fn string) compl {
 // ---- enumeration (continuation passing, nothing materialised) ----
 
 type c02gen struct {
-	rc       *core.RunCtx
-	maxDepth int
-	excs     []string
+	rc        *core.RunCtx
+	maxDepth  int
+	excs      []string
 	hspecs    [][]handlerSpec
 	withCall  bool
-	moreModes bool // also __exit__ returning 1, 0 and None
+	moreModes bool     // also __exit__ returning 1, 0 and None
+	iterModes []string // what for loops iterate over (nil: range(2))
 }
 
 func (g *c02gen) withModes() []string {
@@ -433,12 +465,18 @@ func (g *c02gen) stmts(budget, depth int, k func(s *stmt, used int)) {
 	}
 	// loops with and without else
 	for _, kind := range []sk{sFor, sWhile} {
-		g.blocks(budget-1, depth+1, func(b []*stmt, u int) {
-			k(&stmt{k: kind, body: b}, u+1)
-			g.blocks(budget-1-u, depth+1, func(e []*stmt, u2 int) {
-				k(&stmt{k: kind, body: b, orelse: e, hasElse: true}, u+u2+1)
+		modes := []string{""}
+		if kind == sFor && g.iterModes != nil {
+			modes = g.iterModes
+		}
+		for _, im := range modes {
+			g.blocks(budget-1, depth+1, func(b []*stmt, u int) {
+				k(&stmt{k: kind, body: b, iter: im}, u+1)
+				g.blocks(budget-1-u, depth+1, func(e []*stmt, u2 int) {
+					k(&stmt{k: kind, body: b, orelse: e, hasElse: true, iter: im}, u+u2+1)
+				})
 			})
-		})
+		}
 	}
 	// with
 	for _, mode := range g.withModes() {
@@ -541,7 +579,7 @@ class CM:
             vh.log(('exit', self.n, None))
         else:
             name = '?'
-            for c, n in ((KeyError, 'KeyError'), (ZeroDivisionError, 'ZeroDivisionError'), (ValueError, 'ValueError'), (RuntimeError, 'RuntimeError')):
+            for c, n in ((KeyError, 'KeyError'), (ZeroDivisionError, 'ZeroDivisionError'), (ValueError, 'ValueError'), (RuntimeError, 'RuntimeError'), (Exception, 'Exception'), (LookupError, 'LookupError')):
                 if t is c:
                     name = n
             vh.log(('exit', self.n, name))
@@ -554,6 +592,41 @@ class CM:
         if self.mode == "none":
             return None
         return self.mode == "true"
+class It:
+    def __init__(self, what):
+        self.what = what
+        self.n = 0
+    def __iter__(self):
+        return self
+    def __next__(self):
+        self.n += 1
+        if self.n == 1:
+            return 1
+        if self.what == "StopIteration":
+            raise StopIteration
+        if self.what == "Exception":
+            raise Exception
+        raise KeyError
+def gen1(what):
+    yield 1
+    if what == "Exception":
+        raise Exception
+    return 5
+class Seq:
+    def __init__(self, what):
+        self.what = what
+    def __getitem__(self, i):
+        if i == 0:
+            return 1
+        if self.what == "IndexError":
+            raise IndexError
+        raise LookupError
+def mkiter(mode):
+    if mode[:3] == "cls":
+        return It(mode[4:])
+    if mode[:3] == "gen":
+        return gen1(mode[4:])
+    return Seq(mode[4:])
 `
 
 func c02Run(rc *core.RunCtx) {
@@ -569,6 +642,7 @@ func c02Run(rc *core.RunCtx) {
 		hspecs        [][]handlerSpec
 		call          bool
 		loopWrap      bool
+		iters         bool
 	}
 	hsFull := [][]handlerSpec{
 		{}, // try/finally only
@@ -581,24 +655,30 @@ func c02Run(rc *core.RunCtx) {
 		{{[]string{"ArithmeticError"}, false}, {nil, false}},
 	}
 	hsSmall := [][]handlerSpec{{}, {{[]string{"LookupError"}, true}}, {{[]string{"ZeroDivisionError"}, false}}, {{nil, false}}}
+	hsIter := [][]handlerSpec{{}, {{[]string{"Exception"}, false}}, {{[]string{"KeyError"}, true}}, {{[]string{"LookupError"}, false}}, {{nil, false}}}
 	var plans []plan
 	if rc.Quick() {
 		plans = []plan{
-			{4, 2, []string{"KeyError", "ZeroDivisionError"}, hsFull, true, false},
-			{5, 3, []string{"KeyError"}, hsSmall, true, false},
-			{4, 2, []string{"KeyError", "ZeroDivisionError"}, hsFull, false, true},
+			{4, 2, []string{"KeyError", "ZeroDivisionError"}, hsFull, true, false, false},
+			{5, 3, []string{"KeyError"}, hsSmall, true, false, false},
+			{4, 2, []string{"KeyError", "ZeroDivisionError"}, hsFull, false, true, false},
+			{4, 2, []string{"KeyError"}, hsIter, false, false, true},
 		}
 	} else {
 		plans = []plan{
-			{5, 2, []string{"KeyError", "ZeroDivisionError", "ValueError"}, hsFull, true, false},
-			{6, 3, []string{"KeyError", "ZeroDivisionError"}, hsSmall, true, false},
-			{5, 2, []string{"KeyError", "ZeroDivisionError"}, hsFull, false, true},
-			{7, 3, []string{"KeyError"}, hsSmall[:3], false, false},
+			{5, 2, []string{"KeyError", "ZeroDivisionError", "ValueError"}, hsFull, true, false, false},
+			{6, 3, []string{"KeyError", "ZeroDivisionError"}, hsSmall, true, false, false},
+			{5, 2, []string{"KeyError", "ZeroDivisionError"}, hsFull, false, true, false},
+			{7, 3, []string{"KeyError"}, hsSmall[:3], false, false, false},
+			{5, 3, []string{"KeyError"}, hsIter, false, false, true},
 		}
 	}
 	for pi, pl := range plans {
 		rc.Part = fmt.Sprintf("plan%d", pi)
 		g := &c02gen{rc: rc, maxDepth: pl.depth, excs: pl.excs, hspecs: pl.hspecs, withCall: pl.call, moreModes: pi == 0}
+		if pl.iters {
+			g.iterModes = c02IterModes
+		}
 		g.blocks(pl.budget, 0, func(b []*stmt, used int) {
 			if rc.Expired() || rc.Done() {
 				return
@@ -723,8 +803,8 @@ func c02One(c *c01, body []*stmt, used int, plan int) {
 				i++
 				continue
 			}
-			if o.Func == "__exit__" {
-				continue
+			if o.Func == "__exit__" || o.Func == "__next__" || o.Func == "gen1" || o.Func == "__getitem__" {
+				continue // frames of the context manager / iterator the statement called into
 			}
 			if expReraise[oe] {
 				continue
